@@ -130,6 +130,12 @@ type executor struct {
 
 // Execute runs a plan inside one synctest bubble.
 func Execute(t *testing.T, plan *Plan, opts Opts) *RunResult {
+	if len(plan.Tasks) > 0 {
+		return ExecuteConc(t, plan, opts)
+	}
+	if plan.Upload != nil {
+		return ExecuteUpload(t, plan, opts)
+	}
 	res := &RunResult{Log: &Log{}, Stats: NewStats()}
 	res.Stats.Runs = 1
 	ex := &executor{plan: plan, opts: opts, log: res.Log, res: res}
